@@ -982,6 +982,40 @@ impl OrderActionParams {
     }
 }
 
+/// Verification-only thin wrapper around `Order::unchecked_process_gt` (no logic).
+/// Compiled only with `--cfg gmsol_verif`.
+#[cfg(gmsol_verif)]
+pub mod verif_hooks_g6 {
+    use super::*;
+
+    /// Calls `Order::unchecked_process_gt` with an event emitter built from the given account.
+    pub fn process_gt<'info>(
+        order: &mut Order,
+        store: &mut Store,
+        user: &mut UserHeader,
+        paid_fee_value: u128,
+        event_authority: &AccountInfo<'info>,
+        bump: u8,
+    ) -> Result<()> {
+        order.unchecked_process_gt(
+            store,
+            user,
+            paid_fee_value,
+            &EventEmitter::new(event_authority, bump),
+        )
+    }
+
+    /// Reads `Order::gt_reward`.
+    pub fn gt_reward(order: &Order) -> u64 {
+        order.gt_reward
+    }
+
+    /// Mutable access to the store's GT state (`Store::gt_mut`).
+    pub fn gt_mut(store: &mut Store) -> &mut crate::states::gt::GtState {
+        store.gt_mut()
+    }
+}
+
 #[cfg(test)]
 mod tests {
     use super::*;
